@@ -92,7 +92,7 @@ else
     {fname} = y(s)
   else
     x_inc = (x_new - x(n-1)) / (x(n) - x(n-1))
-    {fname} = y(n) + x_inc*(y(n) - y(n-1))
+    {fname} = y(n-1) + x_inc*(y(n) - y(n-1))
   end if 
 end if 
 
